@@ -92,7 +92,10 @@ ToCached == /\ mode = "plain" /\ mode' = "cached" /\ nodeCache' = {} /\ blockCac
 Reopen == /\ last' = [op |-> "reopen", q |-> <<0, 0, 0>>, ans |-> <<>>] /\ steps' = steps + 1
           /\ UNCHANGED <<mode, nodeCache, blockCache, idxKnown>>      \* caches and info are cloned
 
-Next == (\E q \in Queries : Interval(q) \/ Values(q) \/ Zoom(q)) \/ ToCached \/ Reopen
+\* a query that names a chromosome the file does not have fails before anything is read: an error, and nothing changes
+BadChrom == /\ last' = [op |-> "badchrom", q |-> <<0, 0, 0>>, ans |-> <<>>] /\ steps' = steps + 1
+            /\ UNCHANGED <<mode, nodeCache, blockCache, idxKnown>>
+Next == (\E q \in Queries : Interval(q) \/ Values(q) \/ Zoom(q)) \/ ToCached \/ Reopen \/ BadChrom
 
 \* the abstract answer: from the file alone
 TriplesOf(c) == Map(LAMBDA it : <<it[2], it[3], it[4]>>, SelectSeq(Items, LAMBDA it : it[1] = c))
